@@ -1,0 +1,93 @@
+//go:build verif
+
+package kv
+
+import (
+	"fmt"
+	"runtime"
+	"sync/atomic"
+	"time"
+
+	"github.com/lindb/lindb/kv/table"
+	"github.com/lindb/lindb/kv/version"
+	"github.com/lindb/lindb/pkg/timeutil"
+)
+
+// Verification exports for property C04 (rollup). New file, build tag verif only.
+
+// VerifRollupSync runs the rollup job of one source family exactly as Store.ForceRollup does
+// for each family (family.rollup(): CAS on `rolluping`, background goroutine) and waits until
+// that goroutine has finished, including its deferred clean-up (`rolluping` is reset after
+// `condition.Done()`, so waiting on the WaitGroup alone would let a following rollup be skipped).
+func VerifRollupSync(f Family) error {
+	fam, ok := f.(*family)
+	if !ok {
+		return fmt.Errorf("VerifRollupSync: not a *family")
+	}
+	fam.rollup()
+	return verifWaitRollup(fam)
+}
+
+// VerifForceRollupSync calls the real Store.ForceRollup() and waits for the background
+// goroutines of all families of the store.
+func VerifForceRollupSync(s Store) error {
+	st, ok := s.(*store)
+	if !ok {
+		return fmt.Errorf("VerifForceRollupSync: not a *store")
+	}
+	families := st.getCurrentFamilies()
+	s.ForceRollup()
+	for _, f := range families {
+		if fam, ok := f.(*family); ok {
+			if err := verifWaitRollup(fam); err != nil {
+				return err
+			}
+		}
+	}
+	return nil
+}
+
+func verifWaitRollup(fam *family) error {
+	fam.condition.Wait()
+	deadline := time.Now().Add(30 * time.Second)
+	for fam.rolluping.Load() {
+		if time.Now().After(deadline) {
+			return fmt.Errorf("rollup of %s still marked running", fam.familyInfo())
+		}
+		runtime.Gosched()
+	}
+	return nil
+}
+
+// VerifCommitHook is called immediately BEFORE an edit log is persisted to a store's manifest
+// (storePath = the store's directory, family = family name).
+type VerifCommitHook func(storePath, family string, familyID version.FamilyID, logs []version.Log)
+
+var verifCommitHook atomic.Value // VerifCommitHook
+
+type verifVersionSet struct {
+	version.StoreVersionSet
+	path string
+}
+
+func (v *verifVersionSet) CommitFamilyEditLog(family string, editLog version.EditLog) error {
+	if h, ok := verifCommitHook.Load().(VerifCommitHook); ok && h != nil {
+		h(v.path, family, editLog.FamilyID(), append([]version.Log(nil), editLog.GetLogs()...))
+	}
+	return v.StoreVersionSet.CommitFamilyEditLog(family, editLog)
+}
+
+// VerifInstallCommitHook makes every store opened from now on report its edit-log commits to h
+// (through the package's own `newVersionSetFunc` seam; nothing else changes). h == nil removes
+// the callback (stores keep the pass-through wrapper).
+func VerifInstallCommitHook(h VerifCommitHook) {
+	verifCommitHook.Store(h)
+	newVersionSetFunc = func(storePath string, storeCache table.Cache, numOfLevels int) version.StoreVersionSet {
+		return &verifVersionSet{StoreVersionSet: version.NewStoreVersionSet(storePath, storeCache, numOfLevels), path: storePath}
+	}
+}
+
+// VerifNewRollup exports newRollup (the slot arithmetic object handed to the merger).
+func VerifNewRollup(source, target int64, sourceFTime, targetFTime int64) Rollup {
+	return newRollup(timeutil.Interval(source), timeutil.Interval(target), sourceFTime, targetFTime)
+}
